@@ -115,6 +115,16 @@ theorem C16_nop_matches {W R E P C} (pats : Option (List P)) (m : P → C → Bo
     (w : W) (cmd : C) (h : nopDecision pats m cmd = true) : executeNop pats m ok exec w cmd = (w, .ok ok) := by
   simp [executeNop, h]
 
+/-- **No effect, in every history**: a matching statement can be deleted from any history of statements
+    (COMMENT ON, ALTER … SET COMMENT, DML, … before and after it) without changing the final world — whatever the
+    world consists of (rows, catalog, comment side tables). -/
+theorem C16_nop_history {W R E P C} (pats : Option (List P)) (m : P → C → Bool) (ok : R) (exec : W → C → W × Except E R)
+    (w : W) (pre post : List C) (cmd : C) (h : nopDecision pats m cmd = true) :
+    runCmds pats m ok exec w (pre ++ cmd :: post) = runCmds pats m ok exec w (pre ++ post) := by
+  induction pre generalizing w with
+  | nil => simp [runCmds, executeNop, h]
+  | cons c cs ih => simp [runCmds, ih]
+
 /-- **Every other statement behaves exactly as without the option**. -/
 theorem C16_nop_no_match {W R E P C} (pats : Option (List P)) (m : P → C → Bool) (ok : R) (exec : W → C → W × Except E R)
     (w : W) (cmd : C) (h : nopDecision pats m cmd = false) :
